@@ -27,6 +27,12 @@ def main():
             if st:
                 st()
                 print(f"selftest mc.{name[:-3]} ok")
+    # the simulated Thespian transport must be able to produce every trace recorded from the real Thespian system bases
+    sys.path.insert(0, os.path.join(HERE, "tools"))
+    import conformance_thespian
+
+    conformance_thespian.selftest()
+    print("selftest conformance with recorded Thespian traces ok")
     print("setup ok" if ok else "setup FAILED")
     return 0 if ok else 1
 
